@@ -265,6 +265,12 @@ func FloatString(name string) string {
 	return strconv.FormatFloat(f, 'g', -1, 64)
 }
 
+// SkipCalls: under the engine, calls to the named function (full go/ssa name, e.g.
+// "github.com/x/y/pkg.Func") return zero values without executing; the harness then supplies that
+// function's effect itself from symbolic inputs constrained by the function's contract. Natively the
+// function runs and the harness overwrites its effect with the model's values.
+func SkipCalls(fn string) {}
+
 // TypeName is the unqualified name of x's dynamic type ("mergeFromPatch", "Pod", ...).
 func TypeName(x any) string {
 	if x == nil {
